@@ -92,6 +92,23 @@ PROPS["C04"] = {
     "assumptions": ["tokio::time::Instant::now replaced by a harness clock", "xxh64 collision-freedom"],
 }
 
+PROPS["C03"] = {
+    "level_text": "One-step inductive contracts of the outstation event store from an arbitrary state satisfying its representation invariant: VecList add/remove_at/remove_first/remove_all/iteration (order, handles, versions), EventBuffer insert (exactly one reported displacement when a type is full), select_by_class/type (first k unselected, oldest first), write_events (maximal prefix of the selected records becomes written), clear_written (exactly the written records released, each reported once), reset (nothing released), unwritten_classes; counter arithmetic. Unbounded in history, bounded in capacity.",
+    "level_note": "Bounded: stores of <= 3 records, two event types, one canonical list layout at EventBuffer level (layout independence rests on the VecList contracts); clear_written decided for stores holding <= 1 record (larger: list-level remove_all + counter contracts, composed on paper); object encoders behind a logged contract stub. NOT covered: that clear_written is called only from the two confirm paths and reset on timeout/abort/disconnect, the DISABLE_UNSOLICITED history - all async session glue.",
+    "not_covered": ["outstation::session (async): WHEN clear_written_events / database.reset are called", "counter wrap-around at 2^64 (assumed away, tagged)"],
+}
+
+PROPS["C11"] = {
+    "level_text": "Contracts of the static-data response machinery: RangeWriter::write one step from an arbitrary writer state (continue a header iff same variation and next index, else new header; on no room nothing half-written), selection copies current into selected for exactly the points in range, successive fragments hand every selected point to the writer exactly once in ascending order from the SELECTED (request-time) value while updates change only current, response stages in order (events, static, attributes), need_confirm / series record, and the read-response header builder on a real session.",
+    "level_note": "Database part bounded (<= 3 points at fixed index layouts, enumerated ranges and no-room patterns: symbolic keys into BTreeMap::range do not finish); series logic checked against a contract stub of RangeWriter::write (proved separately) plus one small real end-to-end run. NOT covered: confirm / timeout / new-request gating and consecutive sequence numbers of the series (sol_confirm_wait, async), DatabaseHandle::select iterating the request headers.",
+    "not_covered": ["outstation::session::sol_confirm_wait / wait_for_sol_confirm (async): FIR/FIN/sequence/confirm gating of the series", "outstation::database::DatabaseHandle::select over a HeaderCollection (dispatcher)"],
+}
+PROPS["C12"] = {
+    "level_text": "Proof of the building blocks of outstation replies: control-field and response-header codecs (exactly 4 bytes, round trip), request/response validation (FIR+FIN, UNS only with CONFIRM / only on unsolicited responses, IIN presence), IIN2 mappings for every parse and request error, the function-info table, get_iin2, empty solicited response, the unsolicited-data and read-response builders on a real session (UNS/FIR/FIN/CON and sequence rules, size within the transmit buffer).",
+    "level_note": "Building blocks only. NOT covered: that every transmitted reply is built through them, that CONFIRM and the no-acknowledge codes are never answered, that WRITE / multi-header handlers accumulate every rejection, that whole transmitted fragments parse cleanly - all inside async dispatcher code.",
+    "not_covered": ["outstation::session::handle_non_read / write_error_response / handle_write (async + dispatcher)"],
+}
+
 NA = {
     "C02": "whole-system history over real TCP and three threads: no function contract within reach expresses it (Kani has no threads, tokio I/O crashes the Kani compiler); its ingredients are decided under C03/C06/C08/C09/C10/C13",
     "C14": "every rule is control flow inside async fns that hold the physical layer (check_unsolicited, perform_unsolicited_response_series, wait_for_unsolicited_confirm, handle_deferred_read): outside both verifiers",
